@@ -457,7 +457,9 @@ def _check_shadow_lambda(run: Run, ctx, m, vl: FuncInfo, prop: str) -> None:
     rule_e = f"{prop}.R3e" if prop == "C02" else f"{prop}.R2e"
     fa = ctx.analysis(vl)
     nodep = ("param", vl.pos_params[1])
-    kinds = {n.attr for n in own_nodes(vl) if isinstance(n, ast.Attribute) and n.attr in LAMBDA_ARG_KINDS}
+    from ..lib import attrs_in_call_closure
+
+    kinds = attrs_in_call_closure(m, vl, LAMBDA_ARG_KINDS)
     missing = [k for k in LAMBDA_ARG_KINDS if k not in kinds]
     run.check(not missing, rule_d, vl, vl.node, "all five kinds of lambda parameters are shadowed", f"visit_Lambda does not shadow the lambda's {'/'.join(missing)} parameters: a pending substitution replaces names bound by them")
     gvs = [c for c in calls_in(vl) if isinstance(c.func, ast.Attribute) and c.func.attr == "generic_visit"]
